@@ -6,7 +6,8 @@ From Coq Require Import String Ascii List NArith ZArith QArith Bool Lia.
 From Sylt Require Import Syntax.Resolved.
 From Sylt Require Sem.Values Sem.Runtime Sem.SyltSem.
 From Sylt Require Import Back.IR Back.Emit.
-From Sylt Require Import Pres.EmitAst Pres.EmitRel Pres.Names Pres.LuaFuel Pres.LuaEv Pres.Preamble Pres.SimDefs.
+From Sylt Require Import Pres.EmitAst Pres.EmitRel Pres.Names Pres.LuaFuel Pres.LuaEv Pres.Preamble.
+From Sylt Require Import Pres.SimDefs.
 From Sylt Require Import Lua.LuaAst Lua.LuaMap Lua.LuaNum Lua.LuaProofs Lua.LuaCore.
 Import ListNotations.
 Local Open Scope N_scope.
@@ -165,34 +166,11 @@ Proof.
   apply fmt_var_inj in Heq. subst t'. destruct (HF t Ht). contradiction.
 Qed.
 
-Section Rel.
-Variable pv : N.
-Variable bound : N.
-
-Lemma rel_lframe sc e st E stL c c' E' stL' :
-  rel pv bound sc e st E stL -> lframe c c' E stL E' stL' -> bound <= c -> s_out stL' = s_out stL ->
-  rel pv bound sc e st E' stL'.
-Proof.
-  intros [Hv Hb Hi Hp Hpb HpE HpG Hwf Ht Hl] Hf Hc Ho. constructor.
-  - intros w Hin. destruct (Hv w Hin) as (cc & x & p & H1 & H2 & H3 & H4).
-    exists cc, x, p. repeat split; auto.
-    + apply (lf_incl _ _ _ _ _ _ Hf). exact H3.
-    + rewrite (lf_cells _ _ _ _ _ _ Hf _ _ H3); [exact H4|].
-      intros (t' & Heq & Hr). apply fmt_var_inj in Heq. subst t'. destruct (Hb w Hin). lia.
-  - exact Hb.
-  - exact Hi.
-  - exact Hp.
-  - exact Hpb.
-  - destruct (sget (fmt_var pv) E') as [p|] eqn:Hs; [|reflexivity].
-    destruct (lf_new _ _ _ _ _ _ Hf _ _ Hs) as [H'|(t' & Heq & Hr)]; [congruence|].
-    apply fmt_var_inj in Heq. subst t'. lia.
-  - eapply glob_frame; [apply (lf_tabs _ _ _ _ _ _ Hf) | exact HpG].
-  - apply (lf_wf _ _ _ _ _ _ Hf).
-  - congruence.
-  - apply (lf_linv _ _ _ _ _ _ Hf).
-Qed.
-
-End Rel.
+(* `local V<t> = v` after an evaluation that only allocated garbage *)
+Lemma rel_op_local pv sv bound u fl W sc e s0 E st stm t lv :
+  rel pv sv bound u fl W sc e s0 E st -> cells_ext st stm -> bound <= t ->
+  rel pv sv bound u fl W sc e s0 (sset (fmt_var t) (s_ncell stm) E) (snd (alloc_cell stm lv)).
+Proof. intros Hr Hx Hb. apply rel_local_temp; [eapply rel_cells_ext; eassumption | exact Hb]. Qed.
 
 (* ------------------------------------------------------------------ one `local V<t> = ex` *)
 
@@ -240,7 +218,8 @@ Theorem op_iis F E st l t ex sv c c' :
     ExecS E (fst (aiis u l t ex)) st (ROk (E', SigNormal) st') /\
     lframe c c' E st E' st' /\ s_out st' = s_out st /\
     (F' = F \/ F' = t :: F) /\
-    (1 <= count_of u t -> denotes F' E' st' (aexpand (snd (aiis u l t ex)) t) sv).
+    (1 <= count_of u t -> denotes F' E' st' (aexpand (snd (aiis u l t ex)) t) sv) /\
+    (forall pv sv bound fl W sc e s0, bound <= t -> rel pv sv bound u fl W sc e s0 E st -> rel pv sv bound u fl W sc e s0 E' st').
 Proof.
   intros Hwf Hl Hlt Ht Hnone Hd. unfold aiis.
   destruct (N.eqb_spec (count_of u t) 0) as [H0|H0]; [|destruct (N.eqb_spec (count_of u t) 1) as [H1|H1]]; cbn [fst snd].
@@ -250,12 +229,14 @@ Proof.
     + reflexivity.
     + left. reflexivity.
     + intros Hc. lia.
+    + intros; assumption.
   - exists E, st, F. splits.
     + apply XS_nil.
     + apply lframe_refl; assumption.
     + reflexivity.
     + left. reflexivity.
     + intros _. unfold aexpand. rewrite alut_get_set_same. exact Hd.
+    + intros; assumption.
   - destruct (denotes_now _ _ _ _ _ Hd Hwf Hl) as (lv & Hv & Hp).
     destruct (op_local c c' E st t ex lv Hwf Hl Hlt Ht Hp) as (stm & Hx & Hex & Hfr).
     exists (sset (fmt_var t) (s_ncell stm) E), (snd (alloc_cell stm lv)), (t :: F). splits.
@@ -265,6 +246,7 @@ Proof.
     + right. reflexivity.
     + intros _. unfold aexpand. rewrite Hnone.
       eapply denotes_local; [left; reflexivity | apply sget_sset_same | rewrite get_cell_alloc_new; exact Hv].
+    + intros pv0 sv0 bound0 fl0 W0 sc0 e0 s0 Hb Hr. apply (rel_op_local pv0 sv0 bound0 u fl0 W0 sc0 e0 s0 E st stm t lv Hr Hx Hb).
 Qed.
 
 End Ops.
